@@ -19,7 +19,7 @@ EXPLANATION = (
     "finding (post-processing is literal-blind), reported per class and replayed through format_content - while any other change of t "
     "would be a new violation. (3) convert_raw on raw elements with 1 or 3 backticks, optional language tag, 1-2 text lines with symbolic "
     "characters and symbolic newline characters between them: an inline raw spanning lines is copied verbatim, a rebuilt raw re-emits "
-    "delimiter, tag and text atoms unchanged in order with trimmed whitespace mapped to blank / hard line break. Typst's dedent rule on re-parse and the lexing of numbers/identifiers are outside the claim.")
+    "delimiter, tag and text atoms unchanged in order with trimmed whitespace mapped to blank / hard line break. Typst's dedent rule on re-parse and the lexing of numbers/identifiers are outside the claim. Session 3: the library skeleton (result = strip(render(..)) exactly, Typstyle::new keeps the configuration) and a native literal sweep over documents with CR LF / CR / mixed line ends.")
 
 
 def run(S):
